@@ -1053,6 +1053,9 @@ class PolyhedralTermList(TermList):  # noqa: WPS338
             # 3 : Problem appears to be unbounded.
             # 4 : Numerical difficulties encountered.
             res = linprog(c=objective, A_ub=a_opt, b_ub=b_opt, bounds=(None, None))  # ,options={'tol':0.000001})
+            if res["status"] not in {0, 2}:
+                # the objective is bounded by its own (relaxed) row: any other report comes from the solver's presolve
+                res = linprog(c=objective, A_ub=a_opt, b_ub=b_opt, bounds=(None, None), options={"presolve": False})
             b_temp[i] -= 1
             if res["status"] == 3 or (res["status"] == 0 and -res["fun"] <= b_temp[i]):  # noqa: WPS309
                 logging.debug("Can remove")
